@@ -60,6 +60,13 @@ register("C08", "model_checking", "E3 bfs", "exhaustive enumeration of session h
          "Every first session over 8 member-list kinds x 5 chains x header modes, extended by every append session (depth 1), every pair over a reduced alphabet (depth 2; thorough: triples), plus every reference-written layout and every third-party fixture as initial state; after each session py7zr and ref7z must both see the previous member map unchanged (name, kind, bytes, mtime, attributes) followed by the appended members.",
          "Password constant along a history; ctime/atime not compared (the property observes mtime and attributes); stored '\\' separators compared as '/'.", "DESIGN.md section 5 C08")
 
+register("C14", "fault_enumeration", "E4 device", "exhaustive crash-point enumeration: every byte prefix of the recorded write/truncate stream (plus bounded reordering) of real sessions, each image opened by two readers",
+         "For 144 (thorough ~500) create/append sessions the ordered write stream is recorded on a logging device (raw stream and under the real io.BufferedRandom); every byte-prefix image and every drop-one-of-the-last-two image is opened with py7zr and ref7z; an accepted image must carry the complete member list of the session (append: before or after state).",
+         "py7zr never syncs, so all ops are unsynced; reordering is bounded to one dropped op among the last two.", "DESIGN.md section 5 C14")
+register("C15", "fault_enumeration", "E1 explore", "deviation-bounded choice-tree exploration of write histories with one injected filesystem fault at every answer position",
+         "Histories of 0..2 good calls, one faulty call (missing source, wrong type, rejected name, or the k-th filesystem answer raising EACCES/EIO/ENOENT for every k), 0..2 good calls, with/close; both readers judge the closed archive against the model of successful calls; re-opening of the failed source is observed through the path objects.",
+         "Faults are injected through pathlib.PosixPath subclasses and a BufferedIOBase wrapper handed to the public API.", "DESIGN.md section 5 C15")
+
 NOT_YET = {}
 
 
